@@ -26,15 +26,40 @@ LOOP_BOUND = 8
 
 
 
-class Frame:
-    __slots__ = ("func", "ctx", "selfterm", "localfuncs", "depth")
+# helpers that take an identifier / relative name and form the path themselves: the
+# meaningful site of what they do is their caller (one line of reason each)
+ID_HELPERS = {
+    "FileHashStore._delete": "file given as id or path; path formed by the look-up helpers",
+    "FileHashStore._open": "same",
+    "FileHashStore._exists": "same",
+    "FileHashStore._get_hashstore_data_object_path": "look-up helper",
+    "FileHashStore._get_hashstore_metadata_path": "look-up helper",
+    "FileHashStore._build_hashstore_data_object_path": "look-up helper",
+}
 
-    def __init__(self, func, ctx, selfterm, depth):
+
+class Frame:
+    __slots__ = ("func", "ctx", "selfterm", "localfuncs", "depth", "parent", "callnode", "argterms")
+
+    def __init__(self, func, ctx, selfterm, depth, parent=None, callnode=None, argterms=frozenset()):
         self.func = func
         self.ctx = ctx
         self.selfterm = selfterm
         self.localfuncs = {}
         self.depth = depth
+        self.parent = parent
+        self.callnode = callnode
+        self.argterms = argterms
+
+    def site_for(self, node, terms):
+        """the frame / node where the path of a primitive was decided: walk up while the
+        path was handed in as an argument (or the function is an id-taking helper)"""
+        fr, nd = self, node
+        while fr.parent is not None and (
+            fr.func.qual in ID_HELPERS or (terms and all(t in fr.argterms for t in terms))
+        ):
+            fr, nd = fr.parent, fr.callnode
+        return fr.func, nd
 
 
 class Interp(ExprMixin):
@@ -61,6 +86,7 @@ class Interp(ExprMixin):
         self.attr_assigns = {}  # self.<attr> -> valset (flow-insensitive, this run)
         self.path_attrs = path_attrs if path_attrs is not None else {}
         self.alias = {}
+        self._partition = None
         self.handler_runs = []  # (func, handler node, label, ctx, Out of the handler body)
         self._uid = 0
         self._active = []
@@ -117,13 +143,27 @@ class Interp(ExprMixin):
     # ------------------------------------------------------------------
     def exec_block(self, stmts, st, frame) -> Out:
         total = Out(st)
-        cur = st
+        states = [st]
         for s in stmts:
-            if cur is None:
+            nxt = []
+            for cur in states:
+                o = self.exec_stmt(s, cur, frame)
+                total.absorb(o)
+                if o.forks:
+                    nxt.extend(o.forks)
+                elif o.normal is not None:
+                    nxt.append(o.normal)
+            if len(nxt) > 4:
+                j = None
+                for x in nxt[3:]:
+                    j = join(j, x)
+                nxt = nxt[:3] + [j]
+            states = nxt
+            if not states:
                 break
-            o = self.exec_stmt(s, cur, frame)
-            total.absorb(o)
-            cur = o.normal
+        cur = None
+        for x in states:
+            cur = join(cur, x)
         total.normal = cur
         return total
 
@@ -160,7 +200,20 @@ class Interp(ExprMixin):
         return st
 
     def st_Assign(self, s, st, frame, out):
+        self._partition = None
         val, st = self.eval(s.value, st, frame, out)
+        part = self._partition
+        self._partition = None
+        if part is not None and part[0] is s.value and len(part[1]) == 2 and len(s.targets) == 1 \
+                and isinstance(s.targets[0], ast.Name):
+            # the callee returns None on some paths and a value on others: keep the two
+            # continuations apart until the end of this block (they are re-joined there), so
+            # that must-facts established on one of them survive a following `is None` test
+            forks = []
+            for pst, pval in part[1]:
+                forks.append(self.assign(s.targets[0], pval, pst, frame, out))
+            out.forks = forks
+            return None
         for t in s.targets:
             st = self.assign(t, val, st, frame, out)
         return st
@@ -384,8 +437,8 @@ class Interp(ExprMixin):
             o = self.exec_block(s.body, hs.set(facts=F.add_fact(hs.facts, f, True)), frame)
             for l, x in o.raises.items():
                 out.add_raise(l, x)
-            if o.ret is not None:
-                out.add_return(o.ret, o.retval)
+            for pst, pval in o.ret_parts():
+                out.add_return(pst, pval)
             exits = join(exits, o.brk)
             back = join(o.normal, o.cont)
             if back is None:
@@ -418,8 +471,8 @@ class Interp(ExprMixin):
             o = self.exec_block(s.body, hs, frame)
             for l, x in o.raises.items():
                 out.add_raise(l, x)
-            if o.ret is not None:
-                out.add_return(o.ret, o.retval)
+            for pst, pval in o.ret_parts():
+                out.add_return(pst, pval)
             exits = join(exits, o.brk)
             back = join(o.normal, o.cont)
             if back is None:
@@ -471,8 +524,8 @@ class Interp(ExprMixin):
 
         for l, x in o.raises.items():
             out.add_raise(l, leave(x))
-        if o.ret is not None:
-            out.add_return(leave(o.ret), o.retval)
+        for pst, pval in o.ret_parts():
+            out.add_return(leave(pst), pval)
         if o.brk is not None:
             out.brk = join(out.brk, leave(o.brk))
         if o.cont is not None:
@@ -568,8 +621,8 @@ class Interp(ExprMixin):
                 inner.normal = o.normal
             else:
                 inner.normal = body.normal
-        if body.ret is not None:
-            inner.add_return(body.ret, body.retval)
+        for pst, pval in body.ret_parts():
+            inner.add_return(pst, pval)
         inner.brk = join(inner.brk, body.brk)
         inner.cont = join(inner.cont, body.cont)
         # handlers
@@ -590,8 +643,8 @@ class Interp(ExprMixin):
 
                 for l, x in o.raises.items():
                     inner.add_raise(l, unh(x))
-                if o.ret is not None:
-                    inner.add_return(unh(o.ret), o.retval)
+                for pst, pval in o.ret_parts():
+                    inner.add_return(unh(pst), pval)
                 inner.brk = join(inner.brk, unh(o.brk))
                 inner.cont = join(inner.cont, unh(o.cont))
                 inner.normal = join(inner.normal, unh(o.normal))
@@ -610,11 +663,11 @@ class Interp(ExprMixin):
             o = self.exec_block(s.finalbody, inner.normal, frame)
             out.absorb(o)
             res = o.normal
-        if inner.ret is not None:
-            o = self.exec_block(s.finalbody, inner.ret, frame)
+        for pst, pval in inner.ret_parts():
+            o = self.exec_block(s.finalbody, pst, frame)
             out.absorb(o)
             if o.normal is not None:
-                out.add_return(o.normal, inner.retval)
+                out.add_return(o.normal, pval)
         for l, x in inner.raises.items():
             o = self.exec_block(s.finalbody, x.set(handling=x.handling + (l,)), frame)
             out.absorb(o)
@@ -691,6 +744,10 @@ class Interp(ExprMixin):
     def emit(self, kind, prim, paths, node, st, frame, extra=None):
         """record a primitive effect; returns the updated state"""
         classes = [frozenset(classify(t) for t in v) for v in paths]
+        site_func, site_node = frame.site_for(node, paths[0] if paths else EMPTY)
+        extra = dict(extra or {})
+        extra["site_func"] = site_func
+        extra["site_node"] = site_node
         uid = (frame.func.qual, getattr(node, "lineno", 0), getattr(node, "col_offset", 0), frame.ctx, st.handling)
         ev = Event(kind=kind, prim=prim, paths=paths, classes=classes, func=frame.func, node=node,
                    line=getattr(node, "lineno", 0), ctx=frame.ctx, entry=self.entry, mode=self.mode,
